@@ -54,6 +54,9 @@ type Envelope struct {
 	Ser  Ser       // serializers that can express the message
 	Rep  bool      // representative of its message type for stream tests (rich but small)
 	Big  int       // 1500 / 4096: the native encoding is longer than that many bytes (0: not a designated big entry)
+	// Addr2: the envelope contains a two-entry address map (whose native encoding depends on
+	// map iteration order in the pinned tree); stream tests avoid these entries.
+	Addr2 bool
 	// NoStream marks a big entry that is too long for the quick tier of the chunked stream tests.
 	NoStream bool
 	New      func() *wire.Envelope
@@ -73,7 +76,7 @@ func (b *builder) add(msg, variant string, mk func() wire.Msg) *Envelope {
 }
 
 func (b *builder) addAddr(msg, variant string, sender, recipient MapKind, mk func() wire.Msg) *Envelope {
-	b.out = append(b.out, Envelope{Name: msg + "/" + variant, Msg: msg, Type: mk().Type(), Ser: Both,
+	b.out = append(b.out, Envelope{Name: msg + "/" + variant, Msg: msg, Type: mk().Type(), Ser: Both, Addr2: sender == MapTwo || recipient == MapTwo,
 		New: func() *wire.Envelope {
 			return &wire.Envelope{Sender: WireMap(sender, 0), Recipient: WireMap(recipient, 2), Msg: mk()}
 		}})
@@ -243,17 +246,19 @@ func Envelopes() []Envelope {
 			if k == MapTwo && i%4 != 0 {
 				continue
 			}
-			b.add("LedgerChannelProposalMsg", fmt.Sprintf("%s/addr=%s", ps.Name(), k), func() wire.Msg {
+			e := b.add("LedgerChannelProposalMsg", fmt.Sprintf("%s/addr=%s", ps.Name(), k), func() wire.Msg {
 				return &client.LedgerChannelProposalMsg{BaseChannelProposal: ps.Build(), Participant: WalletMap(k, 1), Peers: peers(ps.Parts, k)}
-			}).Rep = repProp(ps, 5, AppPayment, 1) && k == MapOne0
+			})
+			e.Rep, e.Addr2 = repProp(ps, 5, AppPayment, 1) && k == MapOne0, k == MapTwo
 		}
 	}
 	accVariants := func(msg string, mk func(acc client.BaseChannelProposalAcc, m map[wallet.BackendID]wallet.Address) wire.Msg) {
 		for k := MapKind(0); k < NumMapKinds; k++ {
 			k := k
-			b.add(msg, "addr="+k.String(), func() wire.Msg {
+			e := b.add(msg, "addr="+k.String(), func() wire.Msg {
 				return mk(client.BaseChannelProposalAcc{ProposalID: ID32(msg + "/pid/" + k.String()), NonceShare: ID32(msg + "/ns/" + k.String())}, WalletMap(k, 4))
-			}).Rep = k == MapOne0
+			})
+			e.Rep, e.Addr2 = k == MapOne0, k == MapTwo
 		}
 		b.add(msg, "addr=one@0/padded,zero-ids", func() wire.Msg { return mk(client.BaseChannelProposalAcc{}, WalletMap(MapOne0, PaddedAddr)) })
 	}
@@ -293,14 +298,15 @@ func Envelopes() []Envelope {
 			if (i+j)%5 == 0 {
 				k = MapTwo
 			}
-			b.add("VirtualChannelProposalMsg", fmt.Sprintf("%s/addr=%s/idx=%v", ps.Name(), k, sh[:ps.Parts]), func() wire.Msg {
+			e := b.add("VirtualChannelProposalMsg", fmt.Sprintf("%s/addr=%s/idx=%v", ps.Name(), k, sh[:ps.Parts]), func() wire.Msg {
 				m := &client.VirtualChannelProposalMsg{BaseChannelProposal: ps.Build(), Proposer: WalletMap(k, 1), Peers: peers(ps.Parts, k),
 					Parents: parents(ps.Parts, ps.Name())}
 				for p := 0; p < ps.Parts; p++ {
 					m.IndexMaps = append(m.IndexMaps, IndexMap(sh[p], ps.Parts))
 				}
 				return m
-			}).Rep = repProp(ps, 5, AppPayment, 1) && j == 4
+			})
+			e.Rep, e.Addr2 = repProp(ps, 5, AppPayment, 1) && j == 4, k == MapTwo
 		}
 	}
 	b.add("VirtualChannelProposalMsg", "no-parents-no-indexmaps", func() wire.Msg {
